@@ -24,6 +24,10 @@ type Env struct {
 	Tier string
 	// Knobs set by the driver for sensitivity experiments etc.
 	Opts map[string]string
+	// ClassPrefix is put in front of every violation class of this run; checks
+	// set it when the run uses a feature with a known, broad defect family, so
+	// that those runs are matched structurally and all others stay strict.
+	ClassPrefix string
 
 	trace      []string
 	kinds      []string
@@ -114,7 +118,7 @@ func (e *Env) Fail(oracle, class, format string, args ...any) {
 	if e.viol != nil {
 		return
 	}
-	e.viol = &Violation{Oracle: oracle, Class: class, Step: e.step, Msg: fmt.Sprintf(format, args...)}
+	e.viol = &Violation{Oracle: oracle, Class: e.ClassPrefix + class, Step: e.step, Msg: fmt.Sprintf(format, args...)}
 	e.Logf("!! VIOLATION oracle=%s class=%s step=%d: %s", oracle, class, e.step, e.viol.Msg)
 }
 
